@@ -7,8 +7,8 @@
 #include "world.h"
 #include "peek.h"
 
-enum { DV_NONE = 0, DV_DELETE, DV_DUP, DV_SWAP, DV_SUBST, DV_INJECT, DV_SKIP, DV_FINMUT, DV_N };
-static const char *DV_NAME[] = { "none", "msg_delete", "msg_dup", "msg_swap", "msg_subst", "msg_inject", "peer_skips_msg", "peer_finished_edited" };
+enum { DV_NONE = 0, DV_DELETE, DV_DUP, DV_SWAP, DV_SUBST, DV_INJECT, DV_SKIP, DV_FINMUT, DV_HRR, DV_N };
+static const char *DV_NAME[] = { "none", "msg_delete", "msg_dup", "msg_swap", "msg_subst", "msg_inject", "peer_skips_msg", "peer_finished_edited", "forged_hello_retry_request" };
 
 struct Mode { int ver; uint16_t suite; int kind; int cauth; int resume; int tickets; const char *name; };
 static const Mode MODES[] = {
@@ -18,6 +18,7 @@ static const Mode MODES[] = {
     { 1, TLS_ECDHE_RSA_WITH_AES_256_GCM_SHA384, KK_RSA2048, 0, 0, 1, "tls12_ecdhe_ticket" }, { 1, TLS_RSA_WITH_AES_128_CBC_SHA, KK_RSA2048, 0, 1, 1, "tls12_ticket_resumed" },
     { 1, TLS_PSK_WITH_AES_128_CBC_SHA256, KK_PSK_ONLY, 0, 0, 0, "tls12_psk" }, { 1, TLS_ECDH_ECDSA_WITH_AES_128_GCM_SHA256, KK_EC256, 0, 0, 0, "tls12_ecdh" },
     { 2, TLS_AES_128_GCM_SHA256, KK_EC256, 0, 0, 0, "tls13" }, { 2, TLS_AES_256_GCM_SHA384, KK_RSA2048, KK_EC256, 0, 0, "tls13_cauth" }, { 2, TLS_CHACHA20_POLY1305_SHA256, KK_EC256, 0, 1, 1, "tls13_psk_resumed" },
+    { 5, TLS_ECDHE_RSA_WITH_AES_128_GCM_SHA256, KK_RSA2048, 0, 0, 0, "client_tls13_and_12_server_tls12_only" }, { 5, TLS_ECDHE_RSA_WITH_AES_128_CBC_SHA, KK_RSA2048, 0, 0, 0, "client_tls13_and_11_server_tls11_only" },
     { 2, TLS_AES_128_GCM_SHA256, KK_EC256, KK_EC256, 2, 1, "tls13_cauth_unknown_psk_offered" }, { 2, TLS_AES_128_GCM_SHA256, KK_EC256, 0, 2, 1, "tls13_unknown_psk_offered" },
     { 3, TLS_ECDHE_ECDSA_WITH_AES_128_CBC_SHA, KK_EC256, 0, 0, 0, "dtls10_ecdhe" }, { 4, TLS_RSA_WITH_AES_128_GCM_SHA256, KK_RSA2048, KK_RSA2048, 0, 0, "dtls12_rsa_cauth" }, { 4, TLS_ECDHE_RSA_WITH_AES_128_CBC_SHA256, KK_RSA2048, 0, 1, 0, "dtls12_resumed" },
 };
@@ -55,6 +56,7 @@ static std::vector<Plan> c06_fixed(int tier) {
         }
         for (int s = 0; s < NSKIPS; s++) { v.push_back(mk(m, DV_SKIP, 0, s, 0, 60000 + v.size())); }
         for (int dir = 0; dir < 2; dir++) { for (int k = 0; k < 4; k++) { for (int a = 0; a < (k == 3 ? 4 : 1); a++) { v.push_back(mk(m, DV_FINMUT, dir, k, a * 29 + 3, 60000 + v.size())); } } }
+        if (MODES[m].ver == 5 || MODES[m].ver == 1 || MODES[m].ver == 0) { for (int a = 0; a < 4; a++) { v.push_back(mk(m, DV_HRR, 0, 0, a, 60000 + v.size())); } }
     }
     return v;
 }
@@ -75,7 +77,12 @@ static RunResult c06_exec(const Plan &p) {
     {
         PairCfg pc;
         static const uint32_t V[] = { v_tls_1_1, v_tls_1_2, v_tls_1_3, v_dtls_1_0, v_dtls_1_2 };
-        pc.version = V[M.ver]; pc.suites = { M.suite };
+        if (M.ver == 5) {
+            // the client offers TLS 1.3 and one older version, the server speaks only the older one
+            bool t11 = suite_min_tls12(M.suite) ? false : true;
+            pc.version = 0; pc.versions_c = { v_tls_1_3, t11 ? v_tls_1_1 : v_tls_1_2 }; pc.versions_s = { t11 ? v_tls_1_1 : v_tls_1_2 };
+            pc.suites = { M.suite, (uint16_t) TLS_AES_128_GCM_SHA256 };
+        } else { pc.version = V[M.ver]; pc.suites = { M.suite }; }
         if (M.kind == KK_PSK_ONLY) { pc.server_identity = KK_NONE; pc.psk = true; } else { pc.server_identity = M.kind; }
         if (M.cauth) { pc.client_auth = true; pc.client_identity = M.cauth; }
         pc.tickets = M.tickets != 0;
@@ -114,6 +121,26 @@ static RunResult c06_exec(const Plan &p) {
                     uint8_t mtype = r.type == 20 ? 254 : prot ? 20 /* the protected record after CCS is Finished */ : (r.body_len() ? r.raw[r.hdr] : 255);
                     if (r.type == 20) { ccs_seen[r.dir] = true; }
                     if (have_held && d == ddir) { out.push_back(r.raw); out.push_back(held); have_held = false; seen[d].push_back(r.raw); return; }
+                    if (dv == DV_HRR && !applied && d == DIR_C2S && idx == 0 && mtype == 1 && !dtls) {
+                        // the man in the middle swallows the first ClientHello and answers it himself with a HelloRetryRequest (plaintext, no key
+                        // needed); the second ClientHello goes on to the server, which never sees the first one
+                        const unsigned char *b = r.raw.data() + r.hdr; size_t n = r.body_len();
+                        if (n > 4 + 2 + 32 + 1 && (size_t) b[38] <= 32 && n > 39 + (size_t) b[38]) {
+                            static const unsigned char HRR[32] = { 0xCF,0x21,0xAD,0x74,0xE5,0x9A,0x61,0x11,0xBE,0x1D,0x8C,0x02,0x1E,0x65,0xB8,0x91,0xC2,0xA2,0x11,0x16,0x7A,0xBB,0x8C,0x5E,0x07,0x9E,0x09,0xE2,0xC8,0xA8,0x33,0x9C };
+                            static const uint16_t GRP[] = { 24, 25, 29, 23 };
+                            Bytes body = { 0x03, 0x03 }; body.insert(body.end(), HRR, HRR + 32);
+                            body.push_back(b[38]); body.insert(body.end(), b + 39, b + 39 + b[38]);
+                            body.push_back(0x13); body.push_back(0x01); body.push_back(0);
+                            uint16_t grp = GRP[(size_t) a % 4];
+                            Bytes ext = { 0x00, 0x2b, 0x00, 0x02, 0x03, 0x04, 0x00, 0x33, 0x00, 0x02, (unsigned char) (grp >> 8), (unsigned char) grp };
+                            body.push_back((unsigned char) (ext.size() >> 8)); body.push_back((unsigned char) ext.size()); body.insert(body.end(), ext.begin(), ext.end());
+                            Bytes msg = { 2, 0, (unsigned char) (body.size() >> 8), (unsigned char) body.size() }; msg.insert(msg.end(), body.begin(), body.end());
+                            w.inject(DIR_S2C, make_record(22, 0x0303, msg, false, 0, 0));
+                            applied = true; what = "forged_hello_retry_request:first_client_hello_swallowed";
+                            seen[d].push_back(r.raw);
+                            return;     // ClientHello1 is not forwarded
+                        }
+                    }
                     if (dv >= DV_DELETE && dv <= DV_INJECT && !applied && d == ddir && idx == k) {
                         applied = true;
                         what = std::string(DV_NAME[dv]) + ":" + (mtype == 254 ? "ccs" : hs_type_name(mtype));
@@ -135,7 +162,8 @@ static RunResult c06_exec(const Plan &p) {
                             Bytes inj = nt == 254 ? make_record(20, r.ver, Bytes{ 1 }, dtls, 0, r.seq + 100) : hs_record(r.ver, dtls, nt, nt == 0 ? 0 : 12, (uint16_t) (idx + 20), r.seq + 100, g);
                             what = std::string("msg_inject:") + (nt == 254 ? "ccs" : hs_type_name(nt)) + "_before_" + (mtype == 254 ? "ccs" : hs_type_name(mtype));
                             out.push_back(inj); out.push_back(r.raw);
-                            if (tls13 && nt == 254 && (idx > 0 || d == DIR_S2C)) { benign = true; }                                                        // CCS after the first ClientHello must be ignored
+                            if (tls13 && nt == 254 && (idx > 0 || d == DIR_S2C)) { benign = true; }
+                            if (M.ver == 5 && nt == 254 && d == DIR_S2C && idx == 0) { benign = true; }     // a client that offered TLS 1.3 drops a CCS that arrives before it knows the version (RFC 8446, 5)                                                        // CCS after the first ClientHello must be ignored
                             if (!tls13 && nt == 0 && d == DIR_S2C && !dtls) { benign = true; }                                           // a client may ignore HelloRequest
                             if (dtls) { benign = benign || nt == 0; }
                             break;
@@ -154,6 +182,7 @@ static RunResult c06_exec(const Plan &p) {
                     vsim_hs_skip(byz_node, S.type, 1); if (S.type2) { vsim_hs_skip_also(S.type2, 1); }
                     what = std::string("peer_skips_msg:") + (S.byz_is_server ? "server_" : "client_") + S.name;
                 }
+                if (dv == DV_HRR) { rcv_role = 0; }
                 if (dv == DV_FINMUT) {
                     // byzantine peer holding the session keys: its own Finished is edited before it is sealed (AEAD suites: the seam sits at the seal primitive)
                     byz_node = ddir == DIR_C2S ? NODE_CLIENT : NODE_SERVER; rcv_role = ddir == DIR_C2S ? 1 : 0;
